@@ -247,6 +247,13 @@ static void faithful(hwloc_topology_t t, const struct syn_desc *d)
   }
 }
 
+static void numa_set_text(hwloc_topology_t t, struct sb *b)
+{
+  unsigned n = (unsigned)hwloc_get_nbobjs_by_type(t, HWLOC_OBJ_NUMANODE);
+  for (unsigned want = 0, done = 0; done < n && want < 4096; want++)
+    for (hwloc_obj_t o = hwloc_get_next_obj_by_type(t, HWLOC_OBJ_NUMANODE, NULL); o; o = hwloc_get_next_obj_by_type(t, HWLOC_OBJ_NUMANODE, o))
+      if (o->os_index == want) { sb_printf(b, "%u:%" PRIu64 ";", o->os_index, o->attr->numanode.local_memory); done++; }
+}
 static void gen_one(const struct syn_desc *d, uint64_t index, void *ctx)
 {
   (void)ctx;
@@ -265,6 +272,31 @@ static void gen_one(const struct syn_desc *d, uint64_t index, void *ctx)
     faithful(t, d);
     /* full-length contract on the attribute-bearing families, coarse elsewhere */
     export_roundtrip(t, d->text, d->family >= 3);
+    /* memory does not depend on the filters of the normal levels: the set of NUMA nodes (OS index, local memory; the order in the level depends on where the nodes end up) of
+     * the load with every type kept must be those of the load with the default filters and of the loads that drop one
+     * normal type of the description (attached nodes of a dropped level go to the closest kept ancestor; seeded change
+     * C07-attached-under-filtered-level attached them only when the level itself was created) */
+    if (d->family == 3 || d->family == 5) {
+      struct sb ref; sb_init(&ref);
+      numa_set_text(t, &ref);
+      for (int v = -1; v < d->nlevels - 1; v++) {
+        int ty = v < 0 ? -1 : d->lv[v].type;
+        if (v >= 0 && (ty < 0 || ty == HWLOC_OBJ_NUMANODE || ty == HWLOC_OBJ_MACHINE || ty == HWLOC_OBJ_PU)) continue;
+        hwloc_topology_t tf; if (hwloc_topology_init(&tf) < 0) continue;
+        if (v >= 0) { hwloc_topology_set_all_types_filter(tf, HWLOC_TYPE_FILTER_KEEP_ALL); hwloc_topology_set_type_filter(tf, (hwloc_obj_type_t)ty, HWLOC_TYPE_FILTER_KEEP_NONE); }
+        MC.transitions++;
+        if (hwloc_topology_set_synthetic(tf, d->text) == 0 && hwloc_topology_load(tf) == 0) {
+          struct sb got; sb_init(&got);
+          numa_set_text(tf, &got);
+          if (strcmp(ref.s ? ref.s : "", got.s ? got.s : "")) mc_violation("c07.faithful.memory.filters", "%s :: NUMA nodes (os_index:memory) with every type kept: %s; %s%s: %s", d->text, ref.s, v < 0 ? "with the default filters" : "without ", v < 0 ? "" : hwloc_obj_type_string((hwloc_obj_type_t)ty), got.s);
+          wf_check_mc(tf, "synthetic-filtered");
+          sb_free(&got);
+          mc_count("filtered_loads_compared", 1);
+        } else mc_violation("c07.load.fails", "%s :: accepted with every type kept, %s the load fails", d->text, v < 0 ? "with the default filters" : "with one type filtered out");
+        hwloc_topology_destroy(tf);
+      }
+      sb_free(&ref);
+    }
     mc_try_end();
   }
   mc_report_faults("oracle");
